@@ -322,3 +322,47 @@ def stmts_in_order(fn: ast.AST) -> List[ast.AST]:
 
     rec(fn.body)
     return out
+
+
+def reaching_defs(fn: ast.AST, names):
+    """Path-sensitive reaching definitions for the given local names.
+    Returns {id(Name load node): set of value nodes (or the string 'param'/'loop') that may reach it}."""
+    names = set(names)
+    uses: Dict[int, set] = {}
+    defs_by_id: Dict[int, object] = {}
+
+    def reg(v):
+        defs_by_id[id(v)] = v
+        return id(v)
+
+    def transfer(node, state):
+        st = dict(state)
+        # uses first (value side), then defs
+        val_nodes = []
+        if isinstance(node, (ast.Assign, ast.AnnAssign, ast.AugAssign)):
+            if getattr(node, 'value', None) is not None:
+                val_nodes.append(node.value)
+        elif not isinstance(node, (ast.Return, ast.Raise)):
+            val_nodes.append(node)
+        for vn in val_nodes:
+            for n in ast.walk(vn):
+                if isinstance(n, ast.Name) and isinstance(n.ctx, ast.Load) and n.id in names:
+                    uses.setdefault(id(n), set()).add(st.get(n.id, 'undefined'))
+        if isinstance(node, ast.Assign):
+            for t in node.targets:
+                for x in ast.walk(t):
+                    if isinstance(x, ast.Name) and x.id in names:
+                        st[x.id] = reg(node.value)
+        elif isinstance(node, ast.AnnAssign) and node.value is not None and isinstance(node.target, ast.Name) and node.target.id in names:
+            st[node.target.id] = reg(node.value)
+        elif isinstance(node, ast.AugAssign) and isinstance(node.target, ast.Name) and node.target.id in names:
+            st[node.target.id] = reg(node)
+        return [tuple(sorted(st.items(), key=lambda kv: kv[0]))]
+
+    init = tuple(sorted((a.arg, 'param') for a in fn.args.args + fn.args.kwonlyargs if a.arg in names))
+    w = PathWalker(transfer)
+    w.run(fn, init)
+    out = {}
+    for k, v in uses.items():
+        out[k] = {defs_by_id.get(d, d) for d in v}
+    return out
